@@ -548,7 +548,7 @@ func (x *Exec) frameObligations(fr *Frame, r retRec, ri int, entry *State, con *
 			}
 			continue
 		}
-		if strings.HasPrefix(n, "IT$") || strings.HasPrefix(n, "G$calls$") || strings.HasPrefix(n, "A$"+sanitize(funcKey(x.fn))+"$") {
+		if strings.HasPrefix(n, "IT$") || strings.HasPrefix(n, "G$calls$") || strings.HasPrefix(n, "G$sent") || n == "G$recvtotal" || strings.HasPrefix(n, "A$"+sanitize(funcKey(x.fn))+"$") {
 			continue // function-local cells, engine-managed call counters
 		}
 		if nonghost && !isGhostHeap(n, x.eng) {
@@ -592,7 +592,7 @@ func ancestors(fn *ssa.Function) map[int]map[int]bool {
 // frameFormula: "heap n (current version cur) differs from its initial version only at locations the
 // modifies clause lists, or at objects allocated after entry". "" if unconstrained (whole-heap modifies).
 func (x *Exec) frameFormula(n, cur string, entry *State) string {
-	if n == "*" || strings.HasPrefix(n, "IT$") || strings.HasPrefix(n, "G$calls$") || strings.HasPrefix(n, "A$"+sanitize(funcKey(x.fn))+"$") {
+	if n == "*" || strings.HasPrefix(n, "IT$") || strings.HasPrefix(n, "G$calls$") || strings.HasPrefix(n, "G$sent") || n == "G$recvtotal" || strings.HasPrefix(n, "A$"+sanitize(funcKey(x.fn))+"$") {
 		return ""
 	}
 	if strings.HasPrefix(cur, "?") {
